@@ -419,6 +419,26 @@ def body_map(data) -> Outcome:
                         reduced |= set(ax)
                     else:
                         reduced |= {a for a, s in zip(ax, p_["spec"]) if s is None}
+            # the axis must carry that name *for pipefunc* on the very array that is reduced: some MapSpec (a consumer
+            # spec, or the producer's own MapSpec) names this position of that array
+            def _named_for(arr, a):
+                k = axes_of.get(arr, []).index(a)
+                if arr in prod and prod[arr]["mapspec"]:
+                    return True
+                return any(q["name"] == arr and q["spec"] is not None and q["spec"][k] == a for g in ms_funcs for q in g["params"])
+
+            reduced2 = set()
+            for f in funcs:
+                for p_ in f["params"]:
+                    ax = axes_of.get(p_["name"], [])
+                    if not ax:
+                        continue
+                    if p_["spec"] is None or not f["mapspec"]:
+                        red = set(ax)
+                    else:
+                        red = {a for a, s_ in zip(ax, p_["spec"]) if s_ is None}
+                    reduced2 |= {a for a in red if _named_for(p_["name"], a)}
+            reduced &= reduced2
             reduced &= named_somewhere
             if not reduced:
                 return na()
